@@ -4,5 +4,6 @@ CONSTANTS
   B = 6
   LB = 2
   RunAlpha = {0, 3}
+  FullMask = TRUE
 INVARIANT Clean
 CHECK_DEADLOCK FALSE
